@@ -13,7 +13,18 @@ pub const LATTICE2: [[f64; 2]; 4] = [[0.0, 0.0], [1.0, 0.0], [0.0, 1.0], [1.0, 1
 /// feature maps x -> a x + b
 /// (the last one: a large common offset relative to the spread, still inside the quantifier's
 /// "scaled 1e-1..1e2 and shifted")
-pub const MAPS: [(f64, f64); 4] = [(1.0, 0.0), (0.1, 3.0), (100.0, -50.0), (60.0, 550.0)];
+/// maps 4..: the round-2 "saturated scores" family — scale 100 with no / large offsets, so that the
+/// optimiser's trial points and iterates have linear scores far beyond +-40, where the library's
+/// sigmoid and ln(1+e^s) switch to their saturated branches (thorough: offsets +-600 as well)
+pub const MAPS: [(f64, f64); 9] = [(1.0, 0.0), (0.1, 3.0), (100.0, -50.0), (60.0, 550.0), (100.0, 0.0), (100.0, 300.0), (100.0, -300.0), (100.0, 600.0), (100.0, -600.0)];
+/// the maps every member of the round-1 structured family is enumerated under
+const N_STRUCT_MAPS: usize = 4;
+const SAT_MAPS_QUICK: [usize; 3] = [4, 5, 6];
+const SAT_MAPS_THOROUGH: [usize; 5] = [4, 5, 6, 7, 8];
+/// indices into ALPHAS used by the saturated family (1, 1e-2, 10)
+const SAT_ALPHAS: [usize; 3] = [0, 1, 2];
+/// |linear score| beyond which the library's sigmoid returns exactly 0 / 1
+pub const SATURATION: f64 = 40.0;
 /// alpha = 0 takes part in the monotonicity and prediction clauses only
 pub const ALPHAS: [f64; 4] = [1.0, 1e-2, 10.0, 0.0];
 /// the "ugly" label table: negative, non-contiguous, non-integer, not monotone in the letter
@@ -56,6 +67,8 @@ struct Block {
     n: usize,
     nx: usize,
     combos: Vec<(usize, usize, bool)>,
+    /// member of the round-2 saturated-scores family (two classes; saturation diagnostics computed)
+    sat: bool,
 }
 
 fn combos(maps: &[usize], alphas: &[usize], ugly: bool) -> Vec<(usize, usize, bool)> {
@@ -78,30 +91,30 @@ fn blocks(t: bool) -> Vec<Block> {
     };
     let mut v = vec![
         // permutation-sensitivity control: all orders of 4 letters
-        Block { kind: "sequence", p: 1, kl: 2, n: 4, nx: 4, combos: combos(&am, &[0, 3], false) },
-        Block { kind: "sequence", p: 1, kl: 3, n: 4, nx: 4, combos: combos(&[0, 2], &[0], false) },
-        Block { kind: "multiset", p: 1, kl: 2, n: 6, nx: 4, combos: std(&am, &aa) },
-        Block { kind: "multiset", p: 2, kl: 2, n: 6, nx: 4, combos: std(&am, &aa) },
-        Block { kind: "multiset", p: 1, kl: 3, n: 6, nx: 4, combos: std(&am, &aa) },
-        Block { kind: "multiset", p: 2, kl: 3, n: 6, nx: 4, combos: if t { std(&am, &aa) } else { std(&[0, 2], &aa) } },
-        Block { kind: "multiset", p: 1, kl: 4, n: 6, nx: 3, combos: if t { std(&am, &aa) } else { std(&[0, 2], &[0, 1, 3]) } },
+        Block { kind: "sequence", p: 1, kl: 2, n: 4, nx: 4, combos: combos(&am, &[0, 3], false), sat: false },
+        Block { kind: "sequence", p: 1, kl: 3, n: 4, nx: 4, combos: combos(&[0, 2], &[0], false), sat: false },
+        Block { kind: "multiset", p: 1, kl: 2, n: 6, nx: 4, combos: std(&am, &aa), sat: false },
+        Block { kind: "multiset", p: 2, kl: 2, n: 6, nx: 4, combos: std(&am, &aa), sat: false },
+        Block { kind: "multiset", p: 1, kl: 3, n: 6, nx: 4, combos: std(&am, &aa), sat: false },
+        Block { kind: "multiset", p: 2, kl: 3, n: 6, nx: 4, combos: if t { std(&am, &aa) } else { std(&[0, 2], &aa) }, sat: false },
+        Block { kind: "multiset", p: 1, kl: 4, n: 6, nx: 3, combos: if t { std(&am, &aa) } else { std(&[0, 2], &[0, 1, 3]) }, sat: false },
         // large offset relative to the spread
-        Block { kind: "multiset", p: 1, kl: 2, n: 6, nx: 4, combos: combos(&[3], &aa, false) },
-        Block { kind: "multiset", p: 2, kl: 2, n: 6, nx: 4, combos: combos(&[3], &[0, 2], false) },
-        Block { kind: "multiset", p: 1, kl: 3, n: 6, nx: 4, combos: combos(&[3], &[0, 2], false) },
+        Block { kind: "multiset", p: 1, kl: 2, n: 6, nx: 4, combos: combos(&[3], &aa, false), sat: false },
+        Block { kind: "multiset", p: 2, kl: 2, n: 6, nx: 4, combos: combos(&[3], &[0, 2], false), sat: false },
+        Block { kind: "multiset", p: 1, kl: 3, n: 6, nx: 4, combos: combos(&[3], &[0, 2], false), sat: false },
     ];
     if t {
-        v.push(Block { kind: "multiset", p: 1, kl: 4, n: 6, nx: 4, combos: std(&am, &aa) });
-        v.push(Block { kind: "multiset", p: 2, kl: 4, n: 6, nx: 4, combos: combos(&[0, 2], &aa, false) });
-        v.push(Block { kind: "multiset", p: 1, kl: 2, n: 8, nx: 4, combos: std(&am, &aa) });
-        v.push(Block { kind: "multiset", p: 2, kl: 2, n: 8, nx: 4, combos: std(&am, &aa) });
-        v.push(Block { kind: "multiset", p: 1, kl: 3, n: 8, nx: 4, combos: combos(&am, &aa, false) });
-        v.push(Block { kind: "multiset", p: 2, kl: 3, n: 7, nx: 4, combos: combos(&am, &aa, false) });
-        v.push(Block { kind: "sequence", p: 1, kl: 2, n: 6, nx: 4, combos: combos(&am, &aa, false) });
-        v.push(Block { kind: "sequence", p: 2, kl: 2, n: 6, nx: 4, combos: combos(&am, &aa, false) });
-        v.push(Block { kind: "sequence", p: 1, kl: 3, n: 6, nx: 4, combos: combos(&am, &[0, 1, 3], false) });
-        v.push(Block { kind: "sequence", p: 2, kl: 3, n: 6, nx: 4, combos: combos(&[2], &[0, 3], false) });
-        v.push(Block { kind: "sequence", p: 1, kl: 2, n: 7, nx: 4, combos: combos(&am, &[0, 3], false) });
+        v.push(Block { kind: "multiset", p: 1, kl: 4, n: 6, nx: 4, combos: std(&am, &aa), sat: false });
+        v.push(Block { kind: "multiset", p: 2, kl: 4, n: 6, nx: 4, combos: combos(&[0, 2], &aa, false), sat: false });
+        v.push(Block { kind: "multiset", p: 1, kl: 2, n: 8, nx: 4, combos: std(&am, &aa), sat: false });
+        v.push(Block { kind: "multiset", p: 2, kl: 2, n: 8, nx: 4, combos: std(&am, &aa), sat: false });
+        v.push(Block { kind: "multiset", p: 1, kl: 3, n: 8, nx: 4, combos: combos(&am, &aa, false), sat: false });
+        v.push(Block { kind: "multiset", p: 2, kl: 3, n: 7, nx: 4, combos: combos(&am, &aa, false), sat: false });
+        v.push(Block { kind: "sequence", p: 1, kl: 2, n: 6, nx: 4, combos: combos(&am, &aa, false), sat: false });
+        v.push(Block { kind: "sequence", p: 2, kl: 2, n: 6, nx: 4, combos: combos(&am, &aa, false), sat: false });
+        v.push(Block { kind: "sequence", p: 1, kl: 3, n: 6, nx: 4, combos: combos(&am, &[0, 1, 3], false), sat: false });
+        v.push(Block { kind: "sequence", p: 2, kl: 3, n: 6, nx: 4, combos: combos(&[2], &[0, 3], false), sat: false });
+        v.push(Block { kind: "sequence", p: 1, kl: 2, n: 7, nx: 4, combos: combos(&am, &[0, 3], false), sat: false });
     }
     v
 }
